@@ -150,14 +150,16 @@ def producers(ctx, rule):
     b = caller_fns(facts, ce)
     ctx.ob(rule, "callers|ClientConnection::enqueue_response", b <= {srv.RESPOND}, "ClientConnection::enqueue_response is called from %s (allowed: HttpServer::respond)" % sorted(b))
     n = 0
+    allroots = set()
     for fn in facts.fns.values():
         for site, bi, t in mut_borrow_consumers(fn, conn.HC, "response_queue"):
             callee = (t["callee"].get("path") if t else None) or ""
             if last_seg(callee) in ("push_back", "push_front", "insert", "extend", "append"):
                 n += 1
                 roots = roots_of(facts, fn.name) or {fn.name}
+                allroots |= roots
                 ctx.ob(rule, "push|%s" % fn.name.split("::")[-1], roots <= {he, conn.PARSE_H}, "a response is pushed onto the queue in %s (on behalf of %s; allowed: enqueue_response, parse_headers)" % (fn.name, sorted(roots)), fn.loc(site[0], site[1]))
-    ctx.ob(rule, "push|floor", n >= 2, "%d pushing site(s) inspected (floor 2)" % n)
+    ctx.ob(rule, "push|floor", n >= 1 and he in allroots, "%d pushing site(s) inspected, on behalf of %s (floor: one, used by enqueue_response)" % (n, sorted(allroots)))
 
 
 def strip_some(t):
@@ -241,6 +243,12 @@ def counter(ctx):
                 x, y = look(ca[2][0]), look(ca[2][1])
                 okx = x[0] == "field" and x[3] == "in_flight_response_count"
                 oky = y[0] == "cast" and is_call(look(y[1]), "len") and same_vec(look(look(y[1])[2][0]), ret)
+                if not oky:
+                    # `u32::try_from(v.len()).map_err(..)?`: a conversion that fails instead of truncating
+                    from .util import strip_map_err
+                    src = payload_of(y)
+                    src = look(strip_map_err(src)) if src is not None else None
+                    oky = src is not None and is_call(src, "try_from", "try_into") and len(src[2]) == 1 and is_call(look(src[2][0]), "len") and same_vec(look(look(src[2][0])[2][0]), ret)
                 ok = okx and oky
         ctx.ob("R07.6", "read|counter-plus-returned", ok, "in_flight += len(exactly the vector read() returns)", fn.loc(lf.bb))
     ctx.ob("R07.6", "read|floor", n >= 4, "%d Ok paths of read() inspected (floor 4)" % n)
